@@ -515,7 +515,7 @@ func e2eAppComponent(r *hx.Run) {
 	combos := []combo{{"socks", ""}, {"elastic", "http"}, {"elastic", "https"}, {"docker", "http"}, {"docker", "https"}}
 	rounds := 1
 	if thorough {
-		rounds = 8
+		rounds = 20
 	}
 	runRec := func(cb combo, sp appSpec, extra string) {
 		mode := sp.mode
@@ -713,7 +713,7 @@ func e2eAppComponent(r *hx.Run) {
 		{"docker", "http", "tarpit", 0}, {"elastic", "https", "syndrop", 0}, {"docker", "https", "tarpit", 0}}
 	nShort := len(shortCases)
 	if thorough {
-		nShort = 24
+		nShort = 40
 	}
 	for i := 0; i < nShort; i++ {
 		tc := shortCases[i%len(shortCases)]
@@ -737,7 +737,7 @@ func e2eAppComponent(r *hx.Run) {
 		{"socks", "", "net", 4}, {"docker", "http", "pairs", 1}, {"elastic", "https", "addrs", 3}}
 	nRate := len(rateCases)
 	if thorough {
-		nRate = 30
+		nRate = 54
 	}
 	for i := 0; i < nRate; i++ {
 		rc := rateCases[i%len(rateCases)]
